@@ -342,3 +342,21 @@ Example c09_nonvacuous_bytes_run :
   | _ => False
   end.
 Proof. vm_compute. repeat split. Qed.
+
+(* The byte-level run of the correspondence ([run_bytes], whose hash of the space() slices is compared with the real
+   buffer) goes through the states of [biter], and for every input it reports the outcome of [drive_c], with the callback
+   bytes equal to the input's prefix and data() holding exactly what the index model says is left. *)
+Theorem c09_bytes_trace_is_run :
+  forall p x h, fst (biter_tr p x h) = biter rle cllen pst recog_pst bump_pst lineno_pst (Pos.to_nat p) x.
+Proof. exact biter_tr_run. Qed.
+Print Assumptions c09_bytes_trace_is_run.
+
+Theorem c09_bytes_run_is_drive :
+  forall (lines : list rle) (tail : Z) (sch : list Z) (inp : list Z),
+    zlength inp = input_len rle cllen lines tail ->
+    exists r s, drive_c lines tail sch = Ret (r, s) /\
+      let bo := run_bytes lines tail sch inp in
+      (bo_kind bo, bo_code bo, bo_line bo) = match r with ROk _ => (0, 0, 0) | RErr c l => (1, c, l) end /\
+      bo_cb bo = cbsum s /\ bo_cbok bo = true /\ bo_left bo = avail (buf s).
+Proof. exact run_bytes_is_drive. Qed.
+Print Assumptions c09_bytes_run_is_drive.
